@@ -9,21 +9,23 @@ SPEC = {
                 3: "one_completed_event_per_promotion",
                 4: "never_stuck (in_progress/pending states always have a transition pending)",
                 5: "failback_completes_healthy",
+                6: "partner_down_only_after_threshold (health report changes only as FailureThreshold / RecoveryThreshold consecutive check results allow)",
                 9: "malformed observation"},
-    "rule": "a case = one event sequence (health checks, clock moves, fresh/stale timer-function runs, control-loop ticks, operator commands, callback returns ok/error) run on a real FailoverController + HealthMonitor under a driver-owned virtual clock, observed after every event; distinct = distinct case terms",
+    "rule": "a case = one event sequence (individual health-check results, clock moves, fresh/stale timer-function runs, control-loop ticks, operator commands, callback returns ok/error) run on a real FailoverController + HealthMonitor under a driver-owned virtual clock, observed after every event; distinct = distinct case terms",
     "assumptions": [
         "timer closures are reached through a hook that calls the same function with the same argument; the delay handed to time.AfterFunc is checked only through failoverTime/failbackTime",
         "goroutine scheduling and the Timer.Stop race are represented by explicit events (StaleFO/StaleFB, any number of outstanding callbacks); the Go scheduler itself is outside the Model",
-        "HealthMonitor thresholds are 1/1 in the harness; HTTP probing is not exercised (health checks are injected through recordFailure/recordSuccess)",
-        "guards of the _partial theorems: not_stale (clause 2), at most one outstanding callback (clause 3), no health failure reported during a failback callback (clause 5)",
+        "health-check results reach the real HealthMonitor through recordFailure/recordSuccess (hook) or through real CheckNow HTTP checks against a scripted partner (ok / 500 / 204 / undecodable / status degraded / dropped connection); request timeouts and concurrent checks (CheckNow beside the monitor loop) are not exercised; thresholds 0..4 (negative thresholds behave as 0 in the code and are not generated); SetPartner (unused by cmd/bng) is not modelled",
+        "real-time stream: model time is the measured real time rounded down and the timer-pending flags are filled from State() (probing would re-arm the real timer)",
+        "guards of the _partial theorems: not_stale (clause 2 and its history form), at most one outstanding callback (clause 3), partner not reported down during a failback callback (clause 5)",
     ],
     "modelled": ["pkg/ha/failover.go: handleHealthEvent, evaluateState, ForceFailover/initiateFailover, ForceFailback/initiateFailback, executeFailover, executeFailback, Stats, events",
-                 "pkg/ha/health_monitor.go: recordFailure/recordSuccess transitions with thresholds 1/1, IsPartnerHealthy"],
+                 "pkg/ha/health_monitor.go: recordFailure/recordSuccess (ConsecutiveFailures/ConsecutiveSuccesses, FailureThreshold/RecoveryThreshold, Healthy flag, partner_down/partner_up/check_failed/check_succeeded notifications), IsPartnerHealthy, Health(); performCheck's classification of an answer only through the tie"],
 }
 
 MANIFEST = {
-    "text": "The failover controller is a Gallina state machine with an explicit clock, explicit time.AfterFunc timers (including timers that were already due when stopped and run anyway), executions split at the role-change callback, and any number of executions outstanding. Over ALL event sequences: the reported role changes only when a callback returned nil; a failback starts only while the partner is healthy; in_progress/pending states always have a transition pending (after fix 7b78a27 of ForceFailover, which used to leave the controller stuck in_progress); a timer-started promotion needs the partner down for the full delay (proved in the timer-atomic semantics, refuted by a stale timer: known finding K14b); one completed event per promotion (proved while callbacks do not overlap, refuted otherwise: K14c); failback completing after the partner went down again: K14d. The same monitor runs on traces of the real controller (driver-owned virtual clock) on every run.",
-    "note": "Theorems are about the hand-written Model; the tie to pkg/ha is the differential run (state-fingerprint breadth-first exploration + random + guarded + defect streams). Timer closures are called through a hook; goroutine scheduling is represented by explicit stale-fire and overlap events.",
+    "text": "The health monitor's check bookkeeping (consecutive-failure / -success counters, FailureThreshold / RecoveryThreshold, notifications) and the failover controller are ONE Gallina state machine whose inputs are the individual health-check results. Over ALL sequences of check results interleaved with all other events and all thresholds: the monitor is exactly the documented hysteresis (down at a failed check completing >= FailureThreshold consecutive failures, healthy again at a successful check completing >= RecoveryThreshold consecutive successes; down iff such a failure run was followed by no such success run), and - composition, timer-atomic semantics - a timer-started promotion happens only after such a failed check, with the partner down at every step since and the failover delay elapsed since that check. The controller part is a Gallina state machine with an explicit clock, explicit time.AfterFunc timers (including timers that were already due when stopped and run anyway), executions split at the role-change callback, and any number of executions outstanding. Over ALL event sequences: the reported role changes only when a callback returned nil; a failback starts only while the partner is healthy; in_progress/pending states always have a transition pending (after fix 7b78a27 of ForceFailover, which used to leave the controller stuck in_progress); a timer-started promotion needs the partner down for the full delay (proved in the timer-atomic semantics, refuted by a stale timer: known finding K14b); one completed event per promotion (proved while callbacks do not overlap, refuted otherwise: K14c); failback completing after the partner went down again: K14d. The same trace monitor (which derives 'reported down' from the check results itself, never from the implementation's flag) runs on traces of the real HealthMonitor + FailoverController on every run: driver-owned virtual clock, every check-result sequence up to length 5/8 for four threshold pairs, real HTTP health checks against a scripted partner, and a real-time stream in which the controller's own time.AfterFunc timers fire.",
+    "note": "Theorems are about the hand-written Model; the tie to pkg/ha is the differential run (state-fingerprint breadth-first exploration + exhaustive check-result sequences + random + threshold-boundary + guarded + defect + real-time streams). In the virtual-clock streams timer closures are called through a hook; the real-time stream lets the real timers fire; goroutine scheduling is represented by explicit stale-fire and overlap events.",
     "technique": "Rocq proof (monitor state = projection of Model state; per-step clause lemmas + invariants lifted over all event lists) + differential correspondence with vm_compute evaluation of Model and monitor",
     "design_ref": "DESIGN.md §8 C14",
 }
